@@ -199,6 +199,10 @@ var jsScripts = []struct {
 	{"a.toUpperCase().substring(0, 3)", 1},
 	{"parseInt(a) * 2", 1}, // NaN -> per-record failure when a is not numeric
 	{"typeof b === 'undefined' ? a : a + b", 1},
+	// two scripts that differ only by white space inside a string literal
+	{"a + ' ' + b", 2},
+	{"a + '  ' + b", 2},
+	{"a + '-' +  b", 2},
 }
 
 // leaf generates a declaration that yields a scalar, evaluated at a node whose field xpaths are fs.
@@ -229,9 +233,13 @@ func (g *declGen) leaf(fs []string, intField string) D {
 	case 2:
 		return g.flags(D{"const": g.t.Pick("decl.const", "K", " padded ", "", "42")})
 	case 3:
-		name := g.t.Pick("decl.ext", "ext1", "ext2")
-		g.ext["ext1"], g.ext["ext2"] = "E1v", " e2 padded "
-		return D{"external": name}
+		name := g.t.Pick("decl.ext", "ext1", "ext2", "ext3", "ext3")
+		g.ext["ext1"], g.ext["ext2"], g.ext["ext3"] = "E1v", " e2 padded ", "0042"
+		d := g.flags(D{"external": name})
+		if name == "ext3" && g.t.Bool("decl.ext.type") {
+			d["type"] = g.t.Pick("decl.ext.typev", "int", "float", "string")
+		}
+		return d
 	case 4:
 		return cf("concat", D{"xpath": pick()}, D{"const": "/"}, D{"xpath": pick()})
 	case 5:
